@@ -142,6 +142,11 @@ func (c *Ctx) ruleShapeTags() {
 	}
 	for n := range got {
 		if _, ok := ref.Types[n]; !ok {
+			// an unexported struct is a working structure of a serialiser, like the anonymous ones inside the helpers of a
+			// MarshalJSON method (which the table does not list either): giving such a structure a name adds no key
+			if n != "" && n[0] >= 'a' && n[0] <= 'z' && !strings.Contains(n, ".") {
+				continue
+			}
 			r.Bad("C04-SHAPE-KEYS", "type "+n, "a type with JSON keys that the reference does not know", "")
 		}
 	}
